@@ -145,7 +145,9 @@ def get_rounding_mode(op: Operation, fused_quantize: bool) -> NpuRoundingMode:
     elif (
         op.original_type.npu_block_type in (NpuBlockType.ConvolutionMxN, NpuBlockType.ConvolutionDepthWise)
         and op.ifm.dtype == DataType.int16
+        and (op.bias is None or op.bias.dtype == DataType.int64)
     ):
+        # The reference uses a single rounding for int16 with int64 bias (and the double rounding for int32 bias)
         rounding_mode = NpuRoundingMode.NATURAL
     elif (
         not fused_quantize
